@@ -93,6 +93,38 @@ def pushback_job(chk, rng, i):
             "features": ["workload:pushback_overflow"]}
 
 
+def stack_reuse_job(chk, rng, i):
+    """A scanner given up while start conditions are still stacked (more than the first
+    allocation of the stack holds), destroyed, and used again with the same nesting."""
+    p = gen.default_profile()
+    p["nrules"] = (1, 3)
+    p["depth"] = 1
+    p["scs"] = 2
+    g, case = tokens.base_case(chk, rng, p)
+    nsc = len(case["scs"])
+    case["rules"].insert(0, {"scs": "*", "bol": False, "pat": ("chr", 40), "trail": None,
+                             "act": [("push", rng.below(nsc)), ("top",)]})
+    case["rules"].insert(1, {"scs": "*", "bol": False, "pat": ("chr", 41), "trail": None,
+                             "act": [("if", 5, 100, 60, [("pop",)])]})
+    case["rules"].insert(2, {"scs": "*", "bol": False, "pat": ("chr", 33), "trail": None,
+                             "act": [("ret", 0)]})       # the caller gives up here
+    case["uses"] = ["stack"]
+    case["opts"]["ledger"] = True
+    case["driver"] = {"sessions": 2, "fini": []}
+    ctx = gen.ctx_of(case)
+    inputs = []
+    for k in range(4):
+        n = rng.choice([26, 30, 51, 60, 110])
+        s = g.make_input(case, ctx, maxlen=10).replace(b"!", b"") + b"(" * n + b"x" + b")" * rng.rint(0, 3) + b"!" + \
+            g.make_input(case, ctx, maxlen=10)
+        inputs.append({"sources": [s], "sched": rng.choice([[0], [1]])})
+    fl = tokens.rotate(i, tokens.FLAV3)
+    cfg = {"flavour": fl, "flexargs": (), "opts": {}}
+    case["budget"] = {"events": 1500}
+    return {"case": case, "configs": [cfg], "inputs": inputs, "skip_if": tokens.dangerous,
+            "features": ["workload:stack_left_deep_then_reuse"]}
+
+
 def memcheck_sample(chk, n):
     flex = chk.flex("san")
     for i in range(n):
@@ -176,12 +208,27 @@ def run(pid, tier):
             chk.violation("push-back case %d cfg %s: %s: %s" % (i, stream.cfg_tag(p["cfg"]), p["kind"],
                                                                p["what"]),
                           {"kind": p["kind"]}, stream.save_problem(p))
+    items = [(chk, 70000 + i, stack_reuse_job) for i in range(3 if tier == "quick" else 30)]
+    for i, job, res in util.pmap(lib.worker, items):
+        if job is None:
+            continue
+        chk.count(res.runs)
+        chk.feat(res.features)
+        for k in job.get("features", []):
+            chk.feat1(k)
+        for ii in range(res.runs):
+            chk.nontriv("s%d/%d" % (i, ii))
+        for p in res.problems:
+            chk.violation("stack reuse case %d cfg %s: %s: %s" % (i, stream.cfg_tag(p["cfg"]), p["kind"],
+                                                                 p["what"]),
+                          {"kind": p["kind"]}, stream.save_problem(p))
     memcheck_sample(chk, nm)
     for name, _ in MAKERS:
         chk.require("workload:" + name)
     chk.require("destroy_and_reuse", 50)
     chk.require("token_too_large", 1)
     chk.require("workload:pushback_overflow", 2)
+    chk.require("workload:stack_left_deep_then_reuse", 2)
     chk.require("memcheck_clean", 2)
     return chk
 
